@@ -1,16 +1,12 @@
 (* C03 (patterns): the fixed translation * -> %, ? -> _ preserves the meaning of a wildcard pattern: SIMILAR TO on the
    translated text matches exactly the strings the Lucene pattern matches, for every pattern without % and _ (those are
    SIMILAR TO wildcards themselves: known finding K11) and every string. *)
-Require Import Parser Render QuerySem SqlSem.
+Require Import Parser Render QuerySem SqlSem SqlFrag.
 From Coq Require Import List Ascii String ZArith Bool Lia Arith.
 Import ListNotations.
 Open Scope string_scope.
 
-Definition translate (p : string) : string := replace_char "?"%char "_" (replace_char "*"%char "%" p).
 
-Definition plain_char (c : ascii) : bool :=
-  negb (Ascii.eqb c "%"%char) && negb (Ascii.eqb c "_"%char).
-Fixpoint no_sql_wild (p : string) : bool := match p with EmptyString => true | String c r => plain_char c && no_sql_wild r end.
 
 Lemma translate_cons c p : translate (String c p) =
   String (if Ascii.eqb c "*"%char then "%"%char else if Ascii.eqb c "?"%char then "_"%char else c) (translate p).
